@@ -488,6 +488,7 @@ def cmd_check(prop, tier, repo, seed):
             obligations_all=[dict(name=o['name'], status=results[o['name']]['status'], kind=o['kind'],
                                   features=list(o['features']), bound=o.get('bound'),
                                   solver_s=(results[o['name']].get('stats') or {}).get('runtime_solver_s'),
+                                  duration_s=round((results[o['name']].get('duration_ms') or 0) / 1000, 1),
                                   cbmc_checks=results[o['name']].get('checks_total')) for o in all_obs],
             backend='Kani 0.68.0 / CBMC 6.11.0 / CaDiCaL',
             solver_time_s=round(solver_s, 3),
